@@ -634,7 +634,9 @@ fn toml_value(setting: &str, value: &str, style: &str) -> String {
 fn render_toml(file: &[(String, String)], form: &str, style: &str) -> String {
     let mut root: Vec<String> = vec![];
     let mut cors: Vec<String> = vec![];
-    let eq = if style == "reordered_spaces" { "   =  " } else { " = " };
+    // "tight": still plain TOML, but nothing is separated by a blank: key=value#comment, [cors]#comment, an indented
+    // full-line comment, a tab before a comment, CRLF line endings
+    let eq = if style == "reordered_spaces" { "   =  " } else if style == "tight" { "=" } else { " = " };
     for (s, v) in file {
         let key = SETTINGS.iter().find(|x| x.0 == s).unwrap().4;
         let (is_cors, name) = match key.strip_prefix("cors.") {
@@ -642,7 +644,13 @@ fn render_toml(file: &[(String, String)], form: &str, style: &str) -> String {
             None => (false, key.to_string()),
         };
         let name = if form == "hyphen" { name.replace('_', "-") } else { name };
-        let comment = if style == "comments_quotes" { format!(" # {} as documented", s) } else { String::new() };
+        let comment = if style == "comments_quotes" {
+            format!(" # {} as documented", s)
+        } else if style == "tight" {
+            if root.len() % 2 == 0 { format!("# {} (see docs)", s) } else { format!("\t#{}", s) }
+        } else {
+            String::new()
+        };
         let line = |k: &str| format!("{}{}{}{}", k, eq, toml_value(s, v, style), comment);
         if is_cors && form == "root" {
             root.push(line(&format!("cors_{}", name)));
@@ -667,12 +675,18 @@ fn render_toml(file: &[(String, String)], form: &str, style: &str) -> String {
             out.push('\n');
         }
     }
+    if style == "tight" {
+        out = format!("   # generated, tight spelling\n{}", out);
+    }
     if !cors.is_empty() {
-        out.push_str(if style == "reordered_spaces" { "\n  [cors]  \n" } else { "\n[cors]\n" });
+        out.push_str(if style == "reordered_spaces" { "\n  [cors]  \n" } else if style == "tight" { "[cors]# cross-origin settings\n" } else { "\n[cors]\n" });
         for l in cors {
             out.push_str(&l);
             out.push('\n');
         }
+    }
+    if style == "tight" {
+        out = out.replace('\n', "\r\n");
     }
     out
 }
@@ -744,7 +758,22 @@ fn one_launch(bin: &str, scratch: &Path, idx: usize, case: &Value) -> Value {
     let mut srv = match Srv::start(bin, &dir, &env_vars, &args, &[], None, &format!("cfg{}", idx)) {
         Ok(s) => s,
         Err(e) => {
-            return json!({"ev":"Launch","case":idx,"focus":focus,"given":given,"obs":obs,"started":false,"error":e,
+            // Control: the same settings, merged cli over file over env, handed over on the command line only, in a
+            // fresh directory without a config file.  If that starts, the environment is fine and the failure comes
+            // from how the sources were read (a verdict on C12); if it does not, it is not a verdict (tool error).
+            let cdir = scratch.join(format!("cfg{}", idx)).join("control").join("site");
+            make_site(&cdir);
+            let mut merged: std::collections::BTreeMap<String, String> = std::collections::BTreeMap::new();
+            for (k, v) in env.iter().chain(file.iter()).chain(cli.iter()) {
+                merged.insert(k.clone(), v.clone());
+            }
+            merged.insert("port".to_string(), free_port().to_string());
+            let cargs: Vec<String> = merged.iter().map(|(s, v)| format!("--{}={}", SETTINGS.iter().find(|x| x.0 == s).unwrap().2, v)).collect();
+            let control = match Srv::start(bin, &cdir, &[], &cargs, &[], None, &format!("cfg{}c", idx)) {
+                Ok(mut c) => { let a = c.alive(); c.stop(); a }
+                Err(_) => false,
+            };
+            return json!({"ev":"Launch","case":idx,"focus":focus,"given":given,"obs":obs,"started":false,"control_started":control,"error":e,
                           "rendered":{"env":env_vars,"argv":args,"toml":std::fs::read_to_string(dir.join("rws.config.toml")).unwrap_or_default()}});
         }
     };
